@@ -15,9 +15,10 @@
    "matrix"     the configuration matrix; rows Offset, Offset+Stride, ... are printed as BEHAVIOUR lines
                 (events of the burst, the model's prediction) and replayed on the real library
    "hunt"       the model searches the burst shapes for the ones it predicts to go wrong on the queueing
-                cores (YMFM ring, Nuked delay queue); they are printed and replayed likewise       *)
+                cores (YMFM ring, Nuked delay queue); they are printed and replayed likewise
+   Fix / FixN = the tree under test has the ring / the Nuked queue repaired (predictions of the two last parts) *)
 EXTENDS ChipFront, Json
-CONSTANTS Part, Cap, NR, MaxW, Fix, RateLo, RateHi, NF, Stride, Offset
+CONSTANTS Part, Cap, NR, MaxW, Fix, FixN, RateLo, RateHi, NF, Stride, Offset
 VARIABLES S, bad
 vars == <<S, bad>>
 
@@ -159,13 +160,13 @@ Row(idx) == LET d == Digits(idx, 1) IN
    key |-> KeySeq[d[6] + 1], chips |-> d[7] + 1, fam |-> d[8], end |-> EndSeq[d[9] + 1]]
 RowEvents(row) == OnEvents(row.kind, row.key, row.chips, row.pos)
 \* one chip: exact.  More chips: the writes spread over several queues, which can only help: "ok" stays "ok"
-RowPredict(row) == LET p == Predict(row.emu, RowEvents(row), row.key) IN IF row.chips = 1 \/ p = "ok" THEN p ELSE "unknown"
+RowPredict(row) == LET p == Predict(row.emu, RowEvents(row), row.key, Fix, FixN) IN IF row.chips = 1 \/ p = "ok" THEN p ELSE "unknown"
 ShapeInit == \E emu \in {0, 1, 3}, ki \in DOMAIN KindSeq, pos \in 1..3, key \in SeqToSet(KeySeq), chips \in 1..3 :
   LET kind == KindSeq[ki]
       evs == OnEvents(kind, key, chips, pos)
       H == HeldAfter({}, evs)
       n == Len(evs)
-  IN /\ S = [emu |-> emu, kind |-> kind, pos |-> pos, key |-> key, chips |-> chips, cost |-> BurstCost({}, evs), pred |-> Predict(emu, evs, key)]
+  IN /\ S = [emu |-> emu, kind |-> kind, pos |-> pos, key |-> key, chips |-> chips, cost |-> BurstCost({}, evs), pred |-> Predict(emu, evs, key, FALSE, FALSE)]
      /\ bad = Lbl(<<0, key>> \in H, "target-held")
               \cup Lbl(\A i \in DOMAIN evs : evs[i][3] \in 0..127 /\ evs[i][2] \in 0..15 /\ evs[i][2] # 9, "event-range")
               \cup Lbl(CASE kind = "single" -> n = 1 /\ Cardinality(H) = 1
@@ -176,7 +177,8 @@ ShapeInit == \E emu \in {0, 1, 3}, ki \in DOMAIN KindSeq, pos \in 1..3, key \in 
               \cup Lbl(HeldPeak({}, evs, 1, 0) <= 6 * chips, "polyphony")
               \cup Lbl(HeldAfter(H, OffsOf(H)) = {}, "offs")
               \* the bursts the ring model loses are exactly the ones with more than RingCap writes before the target's patch survives
-              \cup Lbl((emu = 3 /\ Predict(emu, evs, key) = "lost") => BurstCost({}, evs) > RingCap, "lost-needs-overflow")
+              \cup Lbl((emu = 3 /\ Predict(emu, evs, key, FALSE, FALSE) = "lost") => BurstCost({}, evs) > RingCap, "lost-needs-overflow")
+              \cup Lbl(Predict(emu, evs, key, TRUE, TRUE) = "ok", "repaired-predicts-ok")
 MatInit == \E k \in 0..((MatrixSize - 1 - Offset) \div Stride) :
              /\ S = [idx |-> Offset + k * Stride] /\ bad = {}
 \* "hunt": the model searches the shapes for bursts it predicts to go wrong on the queueing cores
@@ -208,6 +210,6 @@ NoBad == bad = {}
 \* the as-is ring violates P1 (finding F11); the closed forms must hold nevertheless
 NoBadClosedForm == \A x \in bad : x \in {"P1-order", "P1-once"}
 Emit == CASE Part = "matrix" -> PrintT(<<"BEHAVIOUR", RowJson(Row(S.idx), S.idx)>>)
-          [] Part = "hunt" -> (RowPredict(S.row) # "ok" => PrintT(<<"BEHAVIOUR", RowJson(S.row, -1)>>))
+          [] Part = "hunt" -> (Predict(S.row.emu, RowEvents(S.row), S.row.key, FALSE, FALSE) # "ok" => PrintT(<<"BEHAVIOUR", RowJson(S.row, -1)>>))
           [] OTHER -> TRUE
 =============================================================================
